@@ -1,26 +1,11 @@
 package goat
 
 // Added to package goat through the build overlay only (never present in
-// /repo): exports unexported pure functions for bounded-exhaustive input
-// enumeration.
+// /repo): exports the two unexported pure functions whose whole input grammar
+// is enumerated (C08: the timeout parser; C12: the method-name parser).
 
-import (
-	"context"
-	"time"
-
-	"google.golang.org/grpc"
-
-	"github.com/avos-io/goat/gen/goatorepo"
-)
+import "time"
 
 func VerifParseGrpcTimeout(s string) (time.Duration, bool) { return parseGrpcTimeout(s) }
 
 func VerifParseRawMethod(s string) (string, string, error) { return parseRawMethod(s) }
-
-func VerifHeadersFromContext(ctx context.Context) []*goatorepo.KeyValue {
-	return headersFromContext(ctx)
-}
-
-// VerifUnaryInterceptor / VerifStreamInterceptor expose what a ServerOption installed.
-func VerifUnaryInterceptor(s *Server) grpc.UnaryServerInterceptor  { return s.unaryInterceptor }
-func VerifStreamInterceptor(s *Server) grpc.StreamServerInterceptor { return s.streamInterceptor }
